@@ -383,10 +383,125 @@ where
     }
 }
 
-/// Replay one ICMC edge and judge it for `prop` (C05, C19, C16, C08, C09; C01/C02/C03 through regions).
+/// ICMC histories read as OFFSET sequences of `ConsecutiveIndexPairs<OwnedRegion<()>, S>` (zero-sized payload:
+/// items of 2^31 elements cost nothing): a path 0, x1, x2, ... with non-decreasing values is the history "push an
+/// item of x1 elements, then one of x2 - x1, ...".  Judged as C12: the k-th push returns k, and every item reads
+/// back with its length.  Paths that are not offset sequences are not judged.
+fn through_pairs<S>(path: &[Value], why: &mut Vec<String>) -> bool
+where
+    S: IndexContainer<usize> + Clone + serde::Serialize + serde::de::DeserializeOwned + 'static,
+{
+    use flatcontainer::impls::deduplicate::ConsecutiveIndexPairs;
+    use flatcontainer::{OwnedRegion, Push, Region};
+    let mut r = ConsecutiveIndexPairs::<OwnedRegion<()>, S>::default();
+    let mut lens: Vec<usize> = vec![];
+    let mut last: Option<usize> = None; // None: the implicit leading 0 has not been seen yet
+    for (i, op) in path.iter().enumerate() {
+        let name = op["op"].as_str().unwrap_or("");
+        match name {
+            "push" => {
+                let x = word(&op["x"]);
+                match last {
+                    None => {
+                        if x != 0 {
+                            return false;
+                        }
+                        last = Some(0);
+                        continue;
+                    }
+                    Some(l) if x < l => return false,
+                    Some(l) => {
+                        let n = x - l;
+                        let item: Vec<()> = vec![(); n];
+                        match guarded(|| r.push(item.as_slice())) {
+                            Err(m) => {
+                                why.push(format!("through-pairs-push-panicked:step {i}: {}", m.chars().take(120).collect::<String>()));
+                                return true;
+                            }
+                            Ok(idx) => {
+                                if idx != lens.len() {
+                                    why.push(format!("through-pairs-index-not-dense:step {i}: push number {} returned {idx}", lens.len()));
+                                    return true;
+                                }
+                            }
+                        }
+                        lens.push(n);
+                        last = Some(x);
+                    }
+                }
+            }
+            "clear" => {
+                if guarded(|| r.clear()).is_err() {
+                    why.push(format!("through-pairs-clear-panicked:step {i}"));
+                    return true;
+                }
+                lens.clear();
+                last = None;
+            }
+            "clone" => r = r.clone(),
+            "serde" => {
+                let t = serde_json::to_string(&r);
+                match t.ok().and_then(|t| serde_json::from_str(&t).ok()) {
+                    Some(c) => r = c,
+                    None => return false,
+                }
+            }
+            "extend" => return false,
+            _ => {}
+        }
+        let bad = guarded(|| {
+            for k in 0..lens.len() {
+                let n = lens[k];
+                let item: &[()] = r.index(k);
+                if item.len() != n {
+                    return Some(format!("through-pairs-kth-read-differs:step {i}: item {k} has {} elements, pushed {n}", item.len()));
+                }
+            }
+            None
+        });
+        match bad {
+            Err(m) => {
+                why.push(format!("through-pairs-read-panicked:step {i}: {}", m.chars().take(120).collect::<String>()));
+                return true;
+            }
+            Ok(Some(w)) => {
+                why.push(w);
+                return true;
+            }
+            Ok(None) => {}
+        }
+    }
+    last.is_some()
+}
+
+/// Replay one ICMC edge and judge it for `prop` (C05, C19, C16, C08, C09; C01/C02/C03 through regions; C12 through pairs).
 pub fn replay_edge(edge: &Value, prop: &str, rep: &mut Report) {
     let kind = edge["kind"].as_str().unwrap();
     let path = edge["path"].as_array().unwrap();
+    if prop == "C12" {
+        let mut why: Vec<String> = vec![];
+        let judged = match kind {
+            "opt" => through_pairs::<IndexOptimized>(path, &mut why),
+            "list" => through_pairs::<List>(path, &mut why),
+            "vec" => through_pairs::<Vec<usize>>(path, &mut why),
+            _ => false,
+        };
+        rep.case(kind, judged);
+        if judged {
+            rep.sample(edge);
+        }
+        if !why.is_empty() {
+            rep.violation(json!({
+                "sig": signature(kind, why[0].split(':').next().unwrap_or(""), &edge["path"]),
+                "why": why.join(","),
+                "kind": kind,
+                "path": edge["path"],
+                "expected": {"res": edge["res"], "obs": edge["obs"]},
+                "observed": {"why": why},
+            }));
+        }
+        return;
+    }
     if matches!(prop, "C01" | "C02" | "C03") {
         let mut why: Vec<String> = vec![];
         match kind {
